@@ -27,7 +27,7 @@ REACH = [
 PLAN = {
     "quick": {"shards": 8, "cases": 2000, "timeout_s": 600, "min_evaluations": 8000,
               "min_counters": {"nodes_invoked": 16000, "nodes_missing": 2400, "args_compared": 16000}},
-    "thorough": {"shards": 16, "cases": 4000, "timeout_s": 3000, "min_evaluations": 30000,
+    "thorough": {"shards": 16, "cases": 20000, "timeout_s": 3000, "min_evaluations": 30000,
                  "min_counters": {"nodes_invoked": 100000}},
 }
 
